@@ -186,8 +186,16 @@ def frames_clause(model, rep, funcs):
     g = funcs.get(S + "_compose_affine_matrices")
     if g is not None:
         rep.instance("F.sim", g.loc())
-        ok, det = Matcher(g).all_of(["$dz, $dy, $dx = center",
-                                     "$t0 = np.array([[1.0, 0.0, 0.0, $dz], [0.0, 1.0, 0.0, $dy], [0.0, 0.0, 1.0, $dx], [0.0, 0.0, 0.0, 1.0]], ...)",
+        MG0 = Matcher(g)
+        pre0 = None
+        for cand in (["$dz, $dy, $dx = center", "$t0 = np.array([[1.0, 0.0, 0.0, $dz], [0.0, 1.0, 0.0, $dy], [0.0, 0.0, 1.0, $dx], [0.0, 0.0, 0.0, 1.0]], ...)"],
+                     ["$t0 = np.eye(4, ...)", "$t0[:3, 3] = center"], ["$dz, $dy, $dx = center", "$t0 = np.eye(4, ...)", "$t0[:3, 3] = ($dz, $dy, $dx)"],
+                     ["$t0 = np.eye(4, ...).copy()", "$t0[:3, 3] = center"]):
+            if MG0.all_of(cand)[0]:
+                pre0 = cand
+                break
+        ok, det = Matcher(g).all_of((pre0 or ["$dz, $dy, $dx = center",
+                                     "$t0 = np.array([[1.0, 0.0, 0.0, $dz], [0.0, 1.0, 0.0, $dy], [0.0, 0.0, 1.0, $dx], [0.0, 0.0, 0.0, 1.0]], ...)"]) + [
                                      "$t1 = _eyes(len(rotator))", "$t1[:, :3, 3] = -output_center", "$r = _eyes(len(rotator))", "$r[:, :3, :3] = rotator.as_matrix()",
                                      "return np.einsum('ij,njk,nkl->nil', $t0, $r, $t1)"])
         try:
